@@ -40,18 +40,18 @@ def C04_1(ctx, facts):
         ok, w = f.guarded(c.bb, none)
         ctx.check(ok, "connect_to|detached-only-without-pool", "a detached (pool-less) checkout is used only when no pool is configured",
                   "Checkout::detached reachable with a pool configured", c.where(), f.path_desc(w))
-    mp = facts.fn("client::conn::protocol::HttpProtocol::multiplex")
-    from core import arms, assigns_to_return, const_of
-    rets = assigns_to_return(mp, mp.live)
-    # multiplex(): true exactly for Http2
-    _, reg = arms(mp, "HttpProtocol")
-    if reg:
-        for v, blocks in reg.items():
-            vals = [const_of(s["r"]["o"]) for (k, b, s) in assigns_to_return(mp, blocks) if k == "stmt" and s["r"]["k"] == "use"]
-            want = "true" if v == "Http2" else "false"
-            ctx.check(vals == [want], "HttpProtocol::multiplex|%s" % v, "multiplex() is %s for %s" % (want, v), "multiplex() yields %s for %s" % (vals, v), mp.where())
-    else:
-        ctx.undecided("HttpProtocol::multiplex|arms", "shape of multiplex() not recognised")
+    # multiplex(): true exactly for Http2 - decision table over the protocol (abstract evaluation; `match`, `matches!`, `==`)
+    from core import AbsPaths, VALUE_EQ
+    mp = facts.unit(facts.fn("client::conn::protocol::HttpProtocol::multiplex"), expand=True)
+    ctx.touched(mp)
+    for v in ("Http1", "Http2"):
+        try:
+            outs = {x for (x, _) in AbsPaths(mp, oracles=[VALUE_EQ]).outcomes(state={1: ("refval", ("variant", v, ()))})}
+        except AbsPaths.Undecided as e:
+            ctx.undecided("HttpProtocol::multiplex|%s" % v, str(e))
+            continue
+        want = "true" if v == "Http2" else "false"
+        ctx.check(outs == {("const", want)}, "HttpProtocol::multiplex|%s" % v, "multiplex() is %s for %s" % (want, v), "multiplex() yields %s for %s" % (sorted(map(str, outs)), v), mp.where())
 
 
 def C04_2(ctx, facts):
